@@ -15,7 +15,7 @@ from vmc.seams.sched import Fault, H5Hook
 ID = "C13"
 LEVEL = "fault_enumeration"
 RULE = ("valid streams of m<=3 chunks of 1-2 pixels; (a) one invalid record of each kind (bin id = n, bin id = -1, lower-triangle pixel in "
-        "symmetric mode, duplicate of a pixel of the same chunk) inserted at EVERY chunk index and EVERY position inside the chunk; (b) an "
+        "symmetric mode, duplicate of a pixel of the same chunk with the same and with a different value) inserted at EVERY chunk index and EVERY position inside the chunk; (b) an "
         "exception raised by the input iterator before EVERY chunk index 0..m; (c) the h5py call log of the fault-free run has N calls "
         "(file opens, group/dataset creation, resizes, slice writes, attribute writes, link creation, deletions): N runs inject an OSError "
         "at call k = 1..N; destinations: new file, new group in a file holding two other collections + a foreign group, an existing empty "
@@ -27,7 +27,7 @@ RULE = ("valid streams of m<=3 chunks of 1-2 pixels; (a) one invalid record of e
 BOUNDS = {"quick": "3 streams; all 4 destinations; every fault point of 5 producers", "thorough": "6 streams; both storage modes for faults"}
 ASSUMPTIONS = ["faults are Python exceptions raised at the h5py API boundary; a killed process / torn HDF5 metadata flush is a property of libhdf5 and not explored",
                "what is left INSIDE the failed destination group is not judged"]
-EXPECT_CLASSES = {"*": ["invalid:bin-too-large", "invalid:negative-bin", "invalid:lower-triangle", "invalid:duplicate", "iterator-failure",
+EXPECT_CLASSES = {"*": ["invalid:bin-too-large", "invalid:negative-bin", "invalid:lower-triangle", "invalid:duplicate", "invalid:duplicate-other-value", "iterator-failure",
                         "io-fault", "dest:new-file", "dest:new-group", "dest:empty-group", "dest:root", "fault-after-format-attr"]}
 
 BINS = alpha.table_bins(((2, 2), (2, 2)), "chr")
@@ -177,7 +177,7 @@ def _invalid(R, unit, only):
     R.add("states")
     R.add("traces")
     kk = 0
-    for kind in ("bin-too-large", "negative-bin", "lower-triangle", "duplicate"):
+    for kind in ("bin-too-large", "negative-bin", "lower-triangle", "duplicate", "duplicate-other-value"):
         for ci, chunk in enumerate(stream):
             for pos in range(len(chunk) + 1):
                 for side in ((0, 1) if kind in ("bin-too-large", "negative-bin") else (0,)):
@@ -191,8 +191,11 @@ def _invalid(R, unit, only):
                         bad = (-1, 2, 1) if side == 0 else (0, -1, 1)
                     elif kind == "lower-triangle":
                         bad = (3, 1, 1)
-                    else:
+                    elif kind == "duplicate":
                         bad = chunk[min(pos, len(chunk) - 1)]
+                    else:
+                        src = chunk[min(pos, len(chunk) - 1)]       # the same pixel again, with a different value
+                        bad = (src[0], src[1], src[2] + 5)
                     rows = chunk[:pos] + [bad] + chunk[pos:]
                     chunks = [px(c) for c in stream[:ci]] + [px(rows)] + [px(c) for c in stream[ci + 1:]]
                     R.order = (R.order[0], kk)
